@@ -206,7 +206,12 @@ fn main() {
         "tight" => {
             let mut shard = report::Shard::new("mq-tight");
             shard.rule = "run = 0.3-1 s of free-running traffic: 2-4 consumers on one shared stream of a queue with N in {1,2,4}, 1-2 producers, optional view stream, no injected delays and no per-call bookkeeping; distinct = hash(configuration, lost position races / 64); non-trivial = consumers really lost position races to each other (R_CAS_LOST / R_PIN_LOST sites hit)".to_string();
-            tight::run_many(args.u64("seed", 1), args.u64("runs", 100), args.u64("budget-ms", 0), args.flag("small"), &mut shard);
+            if args.str("mode", "shared-stream") == "last-receiver" {
+                shard.rule = "run = 2000 trials of one configuration (flavour, N, what the other thread does, drop or unsubscribe): two long-lived threads are released together with seeded skew, one makes the last receiver leave, the other one runs the memory manager (drops/clones senders, drops the other stream) after the retire list was filled to a seeded level; then try_send must say Disconnected; distinct = configuration; non-trivial = a reclamation cycle started or completed (MM_EPOCH_BUMP / MM_DEALLOC sites) inside the window in at least one trial".to_string();
+                tight::run_last_receiver(args.u64("seed", 1), args.u64("runs", 100), args.u64("budget-ms", 0), args.flag("small"), &mut shard);
+            } else {
+                tight::run_many(args.u64("seed", 1), args.u64("runs", 100), args.u64("budget-ms", 0), args.flag("small"), &mut shard);
+            }
             write_out(&args, &shard);
         }
         "sendsync" => {
